@@ -255,7 +255,7 @@ fn models(tier: Tier) -> Vec<Model> {
     // slot menu: empty, or data of length 0, 1, 2, 4 (one with a non-UTF-8 byte)
     let datas: Vec<Option<Vec<u8>>> = vec![None, Some(vec![]), Some(vec![b'x']), Some(vec![0xff, b'y']), Some(vec![b'a', 0, 0xC3, b'd'])];
     let startups: Vec<Vec<u8>> = vec![vec![b's'], vec![b's', 0], vec![1, 2, 3, 4, 5, 6, 0]];
-    let max_slots = tier.pick(3, 5);
+    let max_slots = tier.pick(4, 6);
     let mut out = vec![];
     for n in 0..=max_slots {
         let nd = datas.len() as u64;
@@ -351,14 +351,14 @@ pub fn run(run: &mut Run) -> Finish {
 
     // raw byte strings
     let syms: [u8; 7] = [0x00, 0x01, 0xFF, 0xE5, 0xD1, 0x0B, 0xFB];
-    let maxlen: u32 = tier.pick(6, 8);
+    let maxlen: u32 = tier.pick(7, 9);
     let mut total = 0u64;
     let mut starts = vec![];
     for len in 0..=maxlen {
         starts.push(total);
         total += 7u64.pow(len);
     }
-    run.par_slice("every byte string up to length 6/8 over {00,01,FF,E5,D1,0B,FB}", 3, total, |idx, l| {
+    run.par_slice("every byte string up to length 7/9 over {00,01,FF,E5,D1,0B,FB}", 3, total, |idx, l| {
         let k = idx & ((1 << 40) - 1);
         let len = starts.iter().rposition(|&s| s <= k).unwrap();
         let digits = seq_of(k - starts[len], 7, len);
@@ -373,7 +373,7 @@ pub fn run(run: &mut Run) -> Finish {
     // magic or near-magic + header fields from a menu + every tail up to 9 bytes over {00,01,FF}
     let heads: Vec<[u8; 4]> = vec![le(MAGIC), le(MAGIC ^ 1), le(MAGIC.swap_bytes()), [0; 4]];
     let hv: Vec<u32> = vec![0, 1, 2, 3, 1 << 31, u32::MAX];
-    let tail_max: u32 = tier.pick(8, 10);
+    let tail_max: u32 = tier.pick(9, 11);
     let mut tails = 0u64;
     let mut tstarts = vec![];
     for len in 0..=tail_max {
@@ -381,7 +381,7 @@ pub fn run(run: &mut Run) -> Finish {
         tails += 3u64.pow(len);
     }
     let combos = heads.len() as u64 * (hv.len() as u64).pow(2);
-    run.par_slice("header (magic | near-magic) x count menu x startup-size menu x every tail up to 8/10 bytes over {00,01,FF}", 4, combos * tails, |idx, l| {
+    run.par_slice("header (magic | near-magic) x count menu x startup-size menu x every tail up to 9/11 bytes over {00,01,FF}", 4, combos * tails, |idx, l| {
         let k = idx & ((1 << 40) - 1);
         let (c, t) = (k / tails, k % tails);
         let head = heads[(c / 36) as usize];
